@@ -159,3 +159,50 @@ func InterfaceFixture() (*fedlab.Config, *fedlab.Universe) {
 	}}
 	return cfg, u
 }
+
+// Fixture is a hand-written configuration with its operations and protected sets.
+type Fixture struct {
+	Name  string
+	Build func() (*fedlab.Config, *fedlab.Universe)
+	Ops   []string
+	Ps    [][]string
+}
+
+// InterfaceOps probe: protected fields selected only through a fragment on an interface whose
+// implementers are extended by other subgraphs; a protected field that is also a @key /
+// @requires input; merged occurrences of which only one carries the rule; abstract parents.
+var InterfaceOps = []string{
+	`{ node { id secret } }`,
+	`{ nodes { title secret } }`,
+	`{ nodes { ... on User { secret email } ... on Product { price sku } } }`,
+	`{ nodes { secret ... on User { secret notes } } }`,
+	`{ nodes { ... on User { secret } title } node { ... on User { secret } } }`,
+	`{ nodes { ...F ...G } } fragment F on Node { secret } fragment G on User { secret email }`,
+	`{ me { email secret title } product { price ship label } }`,
+	`{ nodes { ... on Product { ship label } title } }`,
+	`{ product { ship } nodes { ... on Product { ship } } }`,
+	`{ nodes { ... on Product { price } } product { price } }`,
+	`{ product { id sku label title } me { id notes } }`,
+	`{ node { __typename ... on User { id email } } nodes { __typename id } }`,
+	`{ a: nodes { s: secret ... on User { s: secret } } b: nodes { ... on Product { s: secret } } }`,
+}
+
+func Fixtures() []Fixture {
+	return []Fixture{
+		{Name: "iface", Build: InterfaceFixture, Ops: InterfaceOps, Ps: [][]string{
+			{"Node.secret", "User.secret", "Product.secret"},                  // closed
+			{"User.secret"},                                                  // rule on one implementer only
+			{"Node.secret"},                                                  // rule on the interface only
+			{"Product.price", "Product.id", "User.id", "Node.id"},            // @requires input and @key fields
+			{"Product.price", "Product.ship", "User.email", "Product.label"}, // entity-fetched, shareable
+			{"Query.nodes", "Query.node", "Query.me", "Query.product", "User.notes"},
+			{"Product.sku", "Product.title", "User.title", "Node.title", "User.notes"},
+		}},
+		{Name: "mut", Build: MutationFixture, Ops: MutationOps, Ps: [][]string{
+			{"Mutation.bump", "Mutation.wipe", "Mutation.purge"},
+			{"Mutation.setName", "Mutation.addReview", "User.name", "Review.body"},
+			{"Mutation.bump", "Mutation.setName", "User.reviews", "Review.author", "User.id"},
+			{"Query.me", "Query.latest", "User.name", "Mutation.wipe", "Mutation.addReview"},
+		}},
+	}
+}
